@@ -164,7 +164,9 @@ class ParserFactory:
             p[0] = AstNamespace(
                 self.path, p.lineno(1), p.lexpos(1), p[2], doc)
         else:
-            raise ValueError('Expected namespace keyword')
+            self.errors.append(
+                ("Expected 'namespace' keyword, got %s." % repr(p[1]).lstrip('u'),
+                 p.lineno(1), self.path))
 
     def p_import(self, p):
         'import : IMPORT ID NL'
@@ -181,7 +183,9 @@ class ParserFactory:
             if has_annotations:
                 p[0].set_annotations(p[7])
         else:
-            raise ValueError('Expected alias keyword')
+            self.errors.append(
+                ("Expected 'alias' keyword, got %s." % repr(p[1]).lstrip('u'),
+                 p.lineno(1), self.path))
 
     def p_nl(self, p):
         'NL : NEWLINE'
